@@ -5,12 +5,16 @@ from concurrent.futures import ThreadPoolExecutor
 V = os.path.dirname(os.path.dirname(os.path.abspath(__file__)))
 tier = sys.argv[1] if len(sys.argv) > 1 else "quick"
 jobs = []
+retired = []
 for p in sorted(glob.glob(os.path.join(V, "mutants", "C*-*.patch"))):
     jobs.append((os.path.basename(p).split("-")[0], p, os.path.basename(p)[:-6]))
 for d in sorted(glob.glob(os.path.join(V, "seeded", "*"))):
     mp = os.path.join(d, "meta.json")
     if os.path.exists(mp):
         m = json.load(open(mp))
+        if m.get("retired"):
+            retired.append(os.path.basename(d))
+            continue
         for prop in m.get("caught_by", [m["property"]]):
             jobs.append((prop, os.path.join(d, "patch.diff"), "seeded/" + os.path.basename(d)))
 
@@ -36,9 +40,9 @@ def run(job):
 
 with ThreadPoolExecutor(max_workers=4) as ex:
     res = list(ex.map(run, jobs))
-json.dump({"tier": tier, "results": res}, open(os.path.join(V, "selftest-report.json"), "w"), indent=1)
+json.dump({"tier": tier, "retired": retired, "results": res}, open(os.path.join(V, "selftest-report.json"), "w"), indent=1)
 missed = [r for r in res if r["result"] != "caught"]
-print(f"{len(res) - len(missed)}/{len(res)} seeded defects caught")
+print(f"{len(res) - len(missed)}/{len(res)} seeded defects caught ({len(retired)} retired: {retired})")
 for r in missed:
     print("NOT CAUGHT:", r["name"], r["property"], r["result"])
 sys.exit(1 if missed else 0)
